@@ -230,6 +230,7 @@ pub fn run(ctx: &mut Ctx) {
     classifier_v4(ctx, false);
     classifier_v4(ctx, true);
     classifier_v6(ctx);
+    ctx.run_suite(&super::c03conn::ConnectorSuite);
     ctx.assume("reference table: must-refuse = 0/8, 10/8, 100.64/10, 127/8, 169.254/16, 172.16/12, 192.0.2/24, 192.168/16, 198.51.100/24, 203.0.113/24, 240/4, ::, ::1, fe80::/10, fc00::/7, 2001:db8::/32 and ::ffff: of those; must-allow = other unicast IPv4 outside 192.0.0/24, 192.88.99/24, 198.18/15, 224/4 and 2000::/3 minus 2001::/23, 2002::/16, 3fff::/20; everything else is don't-care");
 }
 
@@ -245,6 +246,7 @@ pub fn replay(ctx: &mut Ctx, suite: &str, case: &Value) -> bool {
             }
             true
         }
+        "connector-spellings" => ctx.replay_suite(&super::c03conn::ConnectorSuite, case),
         _ => false,
     }
 }
